@@ -1294,12 +1294,11 @@ static void check_history(const Config &c, const char *subject_name, const std::
       for (auto &x : exp_flush)
         if (x.first > f.call && x.second < f.ret)
           ok = true;
-      // a flush that raced a shutdown may be released by the shutdown path; the exporter is then flushed or shut down
-      if (!ok && concurrent_shutdown)
-      {
-        R.count("flush_released_by_shutdown");
-        ok = true;
-      }
+      // No exemption for a flush that overlaps a Shutdown: whoever completes its ticket (the worker's cycle or the
+      // shutdown drain) goes through NotifyCompletion, which flushes the exporter first.  (An exemption existed
+      // here until the seeded change C02-w4-1; it had never been needed on the unchanged tree.)
+      if (concurrent_shutdown)
+        R.count("true_flush_overlapping_shutdown_judged_for_exporter_flush");
       if (!ok)
         viol("C02", "flush-calls-exporter-flush", cls,
              "ForceFlush returned true over (" + std::to_string(f.call) + "," + std::to_string(f.ret) +
@@ -1944,23 +1943,35 @@ static void run_periodic_history(uint64_t seed, bool thorough)
       bool ok = c.via_provider ? provider->Shutdown() : reader->Shutdown();
       L.add(kShutdownRet, id, ok ? 1 : 0);
     };
-    auto adder = [&](int t, int first, int n) {
+    auto adder = [&](int t, int first, int n, unsigned pace_us = 0) {
       for (int k = 0; k < n; ++k)
       {
         L.add(kProdCall, static_cast<uint64_t>(t), static_cast<uint64_t>(first + k));
         counter->Add(1, {{"t", static_cast<int64_t>(t)}});
         L.add(kProdRet, static_cast<uint64_t>(t), static_cast<uint64_t>(first + k));
+        if (pace_us)
+          usleep(pace_us);
       }
     };
+    // Paced adders keep recording while the flushers work, and the flushers start their calls at seeded offsets, so
+    // that a ForceFlush regularly begins while the cycle serving another caller is already past its collection
+    // (seeded change C02-w4-2: such a caller was handed the outstanding ticket and released by that cycle).
+    static const unsigned paces[] = {0, 0, 60, 250, 1000};
+    unsigned pace                 = paces[(seed >> 20) % 5];
+    if (pace)
+      R.count("histories_periodic_paced_adders");
     {
       vf::WatchdogScope wd("periodic-phase-join", 120);
       std::vector<std::thread> th;
       for (int t = 0; t < c.adders; ++t)
-        th.emplace_back(adder, t, 1, c.adds_each);
+        th.emplace_back(adder, t, 1, c.adds_each, pace);
       for (int f = 0; f < c.flushers; ++f)
         th.emplace_back([&, f] {
           for (int k = 0; k < c.flushes_each; ++k)
           {
+            if (pace)
+              usleep(static_cast<unsigned>(vf::mix(seed, static_cast<uint64_t>(f * 16 + k)) %
+                                           (static_cast<uint64_t>(c.interval_ms) * 700 + 1)));
             do_flush((c.flush_timeout + f + k) % 5);
             usleep(300);
           }
